@@ -462,14 +462,31 @@ class Runner(Exec):
         if c is None or st.dead:
             return
         for (txt, node) in c.ghost.get(where, []):
+            if isinstance(node, ast.NamedExpr):
+                # ghost variable:  (g_name := spec-expression)
+                saved = self.ctx.spec_mode
+                self.ctx.spec_mode = True
+                try:
+                    v = self.ev(st.fork(), node.value)
+                finally:
+                    self.ctx.spec_mode = saved
+                st.env[node.target.id] = v
+                st.defd[node.target.id] = z3.BoolVal(True)
+                continue
             if isinstance(node, ast.Call) and isinstance(node.func, ast.Name) and node.func.id == "check":
                 z = self.ev_spec(st, node.args[0])
                 self.ctx.oblige(st, z, "ghost-assert", None, "%s: %s" % (where, txt))
                 self.ctx.assume(st, z)
             else:
-                # ghost calls (use/unfold/lemma calls): obligations stay on (lemma preconditions are checked)
+                # ghost calls (use/unfold/lemma calls): argument expressions are specification terms (no
+                # safety obligations); lemma preconditions and measures are still checked (force=True)
                 tmp = st.fork()
-                self.ev(tmp, node)
+                saved = self.ctx.spec_mode
+                self.ctx.spec_mode = True
+                try:
+                    self.ev(tmp, node)
+                finally:
+                    self.ctx.spec_mode = saved
 
     def havoc_like(self, v, name):
         ctx = self.ctx
